@@ -10,6 +10,10 @@ that vertex and sorts both arrays with one permutation; that Powell keeps the
 solver's own best pair.  Round 3: the raw cost receives a copy of the solver's vector (wrap_penalty or
 wrap_function); ensembles hand back the best member's pair on every path on
 which one was found (shared with C09.a).
+Round 4: the reducer-over-penalty order is checked against the statement (known
+finding D24); reduced() is decided on every return path; SetObjective's early
+return is truth-table-equivalent to `cost unchanged and ExtraArgs unchanged`;
+every constrained image stored by Nelder-Mead / Powell is cast to float64.
 NOT decided: identity of arrays at run time, float
 equality, reducers on array-valued costs, Powell's monotonicity (brent).
 """
